@@ -70,6 +70,20 @@ def oracle_c04(stream):
     # the same messages whichever way the parser is read: get_message() until None, a loop that is left early and resumed, byte-wise feeding
     want = msgs_out(ms)
     try:
+        # the stream given as a one-shot iterator / generator (Parser.feed documents any iterable)
+        if msgs_out(mido.parser.parse_all(iter(list(stream)))) != want or msgs_out(mido.parser.parse_all(b for b in list(stream))) != want:
+            return ('route:one-shot-iterable', 'parse_all of an iterator / generator over %r differs from parse_all of the list' % (stream[:60],))
+        # what the parser hands out belongs to the caller: changing those messages must not change what the same bytes parse to next time
+        for m in ms:
+            m.time = 12345
+            for a in ('note', 'control', 'program', 'pos', 'song', 'frame_value'):
+                if a in vars(m):
+                    setattr(m, a, (getattr(m, a) + 1) % 8)
+            if m.type == 'sysex':
+                m.data = (9,)
+        again = mido.parser.parse_all(list(stream))
+        if msgs_out(again) != want or any(x.time != 0 for x in again) or {id(x) for x in again} & {id(x) for x in ms}:
+            return ('aliasing', 'after the messages parsed from %r were modified by their consumer, parsing the same bytes again gives %r' % (stream[:40], again[:4]))
         p = mido.Parser()
         p.feed(list(stream))
         got = []
@@ -165,8 +179,8 @@ def impl_pops(case):
     try:
         for op in ops:
             if op[0] == 'feed':
-                form = len(fed) % 3
-                data = list(op[1]) if form == 0 else (bytes(op[1]) if form == 1 else bytearray(op[1]))
+                form = (len(fed) + len(op[1])) % 6            # list / bytes / bytearray / tuple / one-shot iterator / generator
+                data = (list(op[1]), bytes(op[1]), bytearray(op[1]), tuple(op[1]), iter(list(op[1])), (b for b in list(op[1])))[form]
                 p.feed(data); fed += op[1]; out += [0]
             elif op[0] == 'feed_byte':
                 p.feed_byte(op[1]); fed.append(op[1]); out += [0]
